@@ -302,6 +302,228 @@ fn check_incremental(r: &mut Rng, out: &mut ShardOut) -> Vec<Finding> {
     fs
 }
 
+// ------------------------------------------------------------------ front-section layout
+//
+// In a linearized file the newest cross-reference section sits near the start of the file and its Prev entry points
+// *forward* to the main section at the end; updates appended later chain back to that front section. The Prev chain
+// is then not monotonic in file offsets, but "the most recent revision that defines an object wins" still holds along
+// the chain. The files are written here directly (classic tables, simple objects) because the layout is not one the
+// reference writer's append-only loop produces.
+
+fn ser_simple(o: &RObj, out: &mut String) {
+    match o {
+        RObj::Null => out.push_str("null"),
+        RObj::Bool(b) => out.push_str(if *b { "true" } else { "false" }),
+        RObj::Int(i) => out.push_str(&i.to_string()),
+        RObj::Name(n) => {
+            out.push('/');
+            out.push_str(&String::from_utf8_lossy(n));
+        }
+        RObj::Str(s, _) => {
+            out.push('<');
+            for b in s {
+                out.push_str(&format!("{:02x}", b));
+            }
+            out.push('>');
+        }
+        RObj::Ref(n, g) => out.push_str(&format!("{} {} R", n, g)),
+        RObj::Array(a) => {
+            out.push('[');
+            for (i, x) in a.iter().enumerate() {
+                if i > 0 {
+                    out.push(' ');
+                }
+                ser_simple(x, out);
+            }
+            out.push(']');
+        }
+        RObj::Dict(d) => {
+            out.push_str("<<");
+            for (k, v) in d {
+                out.push('/');
+                out.push_str(&String::from_utf8_lossy(k));
+                out.push(' ');
+                ser_simple(v, out);
+            }
+            out.push_str(">>");
+        }
+        _ => out.push_str("null"),
+    }
+}
+
+fn simple_value(r: &mut Rng, tag: &str, n: u32, top: u32) -> RObj {
+    match r.below(4) {
+        0 => RObj::Int(r.range(-1000, 1000)),
+        1 => RObj::Str(format!("{} {}", tag, n).into_bytes(), true),
+        2 => RObj::Array(vec![RObj::Name(tag.as_bytes().to_vec()), RObj::Ref(1 + r.below(top as u64) as u32, 0)]),
+        _ => RObj::Dict(vec![(b"From".to_vec(), RObj::Name(tag.as_bytes().to_vec())), (b"N".to_vec(), RObj::Int(n as i64)), (b"Next".to_vec(), RObj::Ref(1 + r.below(top as u64) as u32, 0))]),
+    }
+}
+
+/// one body + classic table + trailer; returns the offset of the `xref` keyword
+fn write_section(out: &mut Vec<u8>, objs: &BTreeMap<u32, RObj>, with_zero: bool, size: u32, root: u32, prev: Option<usize>, eol: &str) -> usize {
+    let mut offs: BTreeMap<u32, usize> = BTreeMap::new();
+    for (n, o) in objs {
+        offs.insert(*n, out.len());
+        let mut s = String::new();
+        ser_simple(o, &mut s);
+        out.extend_from_slice(format!("{} 0 obj{}{}{}endobj{}", n, eol, s, eol, eol).as_bytes());
+    }
+    let xref_at = out.len();
+    out.extend_from_slice(format!("xref{}", eol).as_bytes());
+    let mut nums: Vec<u32> = offs.keys().cloned().collect();
+    if with_zero {
+        nums.insert(0, 0);
+    }
+    let mut i = 0;
+    while i < nums.len() {
+        let mut j = i;
+        while j + 1 < nums.len() && nums[j + 1] == nums[j] + 1 {
+            j += 1;
+        }
+        out.extend_from_slice(format!("{} {}{}", nums[i], j - i + 1, eol).as_bytes());
+        for n in &nums[i..=j] {
+            if *n == 0 {
+                out.extend_from_slice(b"0000000000 65535 f\r\n");
+            } else {
+                out.extend_from_slice(format!("{:010} 00000 n\r\n", offs[n]).as_bytes());
+            }
+        }
+        i = j + 1;
+    }
+    let prev_s = prev.map(|p| format!("/Prev {:010}", p)).unwrap_or_default();
+    out.extend_from_slice(format!("trailer{}<</Size {}/Root {} 0 R{}>>{}", eol, size, root, prev_s, eol).as_bytes());
+    xref_at
+}
+
+pub struct FrontFile {
+    pub bytes: Vec<u8>,
+    pub expect: RDoc,
+    pub appended: usize,
+    /// an object defined only by the main (forward-referenced) section
+    pub main_only: Option<u32>,
+}
+
+pub fn front_section_file(r: &mut Rng) -> FrontFile {
+    let n_main = 3 + r.below(12) as u32;
+    let eol = if r.bool() { "\n" } else { "\r\n" };
+    // main section (older): objects 1..=n_main; front section (newer): redefines some of them, adds some above
+    let mut main: BTreeMap<u32, RObj> = BTreeMap::new();
+    main.insert(1, RObj::Dict(vec![(b"Type".to_vec(), RObj::Name(b"Catalog".to_vec())), (b"From".to_vec(), RObj::Name(b"main".to_vec()))]));
+    for n in 2..=n_main {
+        main.insert(n, simple_value(r, "main", n, n_main));
+    }
+    let mut front: BTreeMap<u32, RObj> = BTreeMap::new();
+    for n in 2..=n_main {
+        if r.chance(1, 4) {
+            front.insert(n, simple_value(r, "front", n, n_main));
+        }
+    }
+    let n_new = 1 + r.below(4) as u32;
+    for n in n_main + 1..=n_main + n_new {
+        front.insert(n, simple_value(r, "front", n, n_main));
+    }
+    if r.chance(1, 3) {
+        front.insert(1, RObj::Dict(vec![(b"Type".to_vec(), RObj::Name(b"Catalog".to_vec())), (b"From".to_vec(), RObj::Name(b"front".to_vec()))]));
+    }
+    let mut top = n_main + n_new;
+    let mut out: Vec<u8> = Vec::new();
+    out.extend_from_slice(format!("%PDF-1.4{}%\u{e2}\u{e3}\u{cf}\u{d3}{}", eol, eol).as_bytes().iter().map(|b| *b).collect::<Vec<u8>>().as_slice());
+    // front section first; its Prev is patched once the main section's offset is known
+    let front_xref = write_section(&mut out, &front, false, top + 1, 1, Some(0), eol);
+    let prev_field = {
+        let hay = &out[front_xref..];
+        front_xref + hay.windows(6).position(|w| w == b"/Prev ").expect("Prev written") + 6
+    };
+    if r.bool() {
+        // (linearized files close the first-page section with its own startxref / %%EOF)
+        out.extend_from_slice(format!("startxref{}0{}%%EOF{}", eol, eol, eol).as_bytes());
+    }
+    let main_xref = write_section(&mut out, &main, true, top + 1, 1, None, eol);
+    let patch = format!("{:010}", main_xref);
+    out[prev_field..prev_field + 10].copy_from_slice(patch.as_bytes());
+    out.extend_from_slice(format!("startxref{}{}{}%%EOF{}", eol, front_xref, eol, eol).as_bytes());
+    let mut expect = RDoc::new();
+    expect.version = "1.4".into();
+    for (n, o) in main.iter().chain(front.iter()) {
+        expect.objects.insert((*n, 0), o.clone());
+    }
+    let main_only = main.keys().filter(|n| **n != 1 && !front.contains_key(n)).next().cloned();
+    // ordinary updates appended afterwards chain back to the front section
+    let appended = r.usize_below(3);
+    let mut prev = front_xref;
+    for k in 0..appended {
+        let mut upd: BTreeMap<u32, RObj> = BTreeMap::new();
+        for n in 2..=top {
+            if r.chance(1, 5) && Some(n) != main_only {
+                upd.insert(n, simple_value(r, &format!("update{}", k), n, top));
+            }
+        }
+        top += 1;
+        upd.insert(top, simple_value(r, &format!("update{}", k), top, top));
+        let at = write_section(&mut out, &upd, false, top + 1, 1, Some(prev), eol);
+        out.extend_from_slice(format!("startxref{}{}{}%%EOF{}", eol, at, eol, eol).as_bytes());
+        prev = at;
+        for (n, o) in upd {
+            expect.objects.insert((n, 0), o);
+        }
+    }
+    expect.trailer = vec![(b"Root".to_vec(), RObj::Ref(1, 0))];
+    FrontFile { bytes: out, expect, appended, main_only }
+}
+
+fn check_front_section(r: &mut Rng, out: &mut ShardOut) -> Vec<Finding> {
+    let f = front_section_file(r);
+    out.count("front_section_files");
+    out.count(&format!("front_section_files_with_{}_appended_updates", f.appended));
+    out.digests.insert(crate::prng::fnv_bytes(&f.bytes));
+    let none = BTreeSet::new();
+    let witness = |sig: &str| json!({"kind":"history","signature":sig,"file_hex":hex(&f.bytes),"expect":rdoc_to_json(&f.expect),"containers":Vec::<u32>::new(),"layout":"front-section","file_text":String::from_utf8_lossy(&f.bytes[..f.bytes.len().min(3000)])});
+    let diffs = match crate::props::catch(|| Document::load_mem(&f.bytes)) {
+        Err(p) => vec![((0, 0), format!("load_mem panicked: {}", p))],
+        Ok(Err(e)) => vec![((0, 0), format!("load_mem failed: {:?}", e))],
+        Ok(Ok(doc)) => crate::props::c02::diff_loaded(&f.expect, &doc, &none),
+    };
+    if let Some((_, msg)) = diffs.first() {
+        let sig = format!("C07/front-section/{}", if msg.contains("missing") { "missing-object" } else if msg.contains("unexpected") { "extra-object" } else { "different-object" });
+        return vec![Finding { signature: sig.clone(), what: format!("file whose newest section precedes the section its Prev names ({} updates appended): {}", f.appended, msg), witness: witness(&sig) }];
+    }
+    // an incremental update on top of it: previous bytes kept, untouched objects still come from the older sections
+    let Some(target) = f.main_only else { return vec![] };
+    let step = crate::props::catch(|| -> Result<Vec<u8>, String> {
+        let mut inc = lopdf::IncrementalDocument::load_from(&f.bytes[..]).map_err(|e| format!("IncrementalDocument::load_from failed: {:?}", e))?;
+        let id = inc.new_document.add_object(lopdf::Object::Integer(4242));
+        let _ = id;
+        let mut bytes = vec![];
+        inc.save_to(&mut bytes).map_err(|e| format!("incremental save failed: {}", e))?;
+        Ok(bytes)
+    });
+    let bytes = match step {
+        Err(p) => return vec![Finding { signature: "C07/front-section/incremental-panic".into(), what: p, witness: witness("C07/front-section/incremental-panic") }],
+        Ok(Err(e)) => return vec![Finding { signature: "C07/front-section/incremental-error".into(), what: e, witness: witness("C07/front-section/incremental-error") }],
+        Ok(Ok(b)) => b,
+    };
+    if !bytes.starts_with(&f.bytes) {
+        return vec![Finding { signature: "C07/front-section/prefix".into(), what: "incremental save did not keep the loaded bytes as a prefix".into(), witness: witness("C07/front-section/prefix") }];
+    }
+    match Document::load_mem(&bytes) {
+        Ok(doc) => {
+            let got = doc.objects.get(&(target, 0)).map(from_lo);
+            let want = f.expect.objects.get(&(target, 0));
+            if got.as_ref().zip(want).map(|(a, b)| robj_eq(a, b)) != Some(true) {
+                return vec![Finding {
+                    signature: "C07/front-section/untouched-after-update".into(),
+                    what: format!("after an incremental update, untouched object {} 0 of the main section reads {:?}", target, got.map(|g| g.show())),
+                    witness: witness("C07/front-section/untouched-after-update"),
+                }];
+            }
+        }
+        Err(e) => return vec![Finding { signature: "C07/front-section/reload".into(), what: format!("{:?}", e), witness: witness("C07/front-section/reload") }],
+    }
+    out.count("front_section_incremental_updates_checked");
+    vec![]
+}
+
 pub fn run(cfg: &RunCfg) -> (PropMeta, ShardOut, Map<String, Value>) {
     let n = cfg.n(12_000, 600_000);
     let per = (n as usize + cfg.threads - 1) / cfg.threads;
@@ -309,7 +531,12 @@ pub fn run(cfg: &RunCfg) -> (PropMeta, ShardOut, Map<String, Value>) {
         let mut out = ShardOut::default();
         for i in 0..per {
             let mut r = Rng::for_case(cfg.seed, TAG, shard as u64, i as u64);
-            if i % 2 == 0 {
+            if i % 10 == 5 {
+                out.evaluations += 1;
+                for f in check_front_section(&mut r, &mut out) {
+                    out.finding(f);
+                }
+            } else if i % 2 == 0 {
                 let nb = 4 + r.usize_below(30);
                 let h = gen_history(&mut r, nb, 4);
                 let style = if r.bool() { XrefStyle::Table } else { XrefStyle::Stream };
@@ -337,7 +564,7 @@ pub fn run(cfg: &RunCfg) -> (PropMeta, ShardOut, Map<String, Value>) {
     });
     let meta = PropMeta {
         level: "exploration",
-        rule: "(a) random histories base + 1..4 update revisions (each replacing a random subset and adding objects, trailer changes) written by the reference writer (xref tables or xref streams, updated objects plain or inside object streams): Document::load_mem of every prefix must equal the latest-wins model; (b) random edit scripts (set_object, opt_clone_object_to_new_document + mutation, add_object) through IncrementalDocument on lopdf-written and reference-written bases, 1..3 steps, after each step: previous bytes are a prefix, get_prev_documents() unchanged, the strict reader finds only the touched objects and exactly one new section with Prev = previous startxref, the result loads to the model. distinct = distinct histories / final files.".into(),
+        rule: "(a) random histories base + 1..4 update revisions (each replacing a random subset and adding objects, trailer changes) written by the reference writer (xref tables or xref streams, updated objects plain or inside object streams): Document::load_mem of every prefix must equal the latest-wins model; (b) random edit scripts (set_object, opt_clone_object_to_new_document + mutation, add_object) through IncrementalDocument on lopdf-written and reference-written bases, 1..3 steps, after each step: previous bytes are a prefix, get_prev_documents() unchanged, the strict reader finds only the touched objects and exactly one new section with Prev = previous startxref, the result loads to the model; (c) one case in ten is a file in the layout of linearized documents: the newest section stands in front of the (older) main section its Prev names, 0..2 ordinary updates appended - it must load to the latest-wins merge along the Prev chain and survive an incremental update. distinct = distinct histories / final files.".into(),
         assumptions: vec![
             "one cross-reference style per file; hybrid files and objects freed in a later revision are outside the domain".into(),
             "raw CR/CRLF inside literal strings (C02's known finding) is switched off in the reference writer for this property".into(),
